@@ -38,7 +38,7 @@ def world_cfg(case):
     for i, c in enumerate(case["conns"]):
         out = c["state"] in ("connecting", "awaiting-cea")
         peers.append({"name": f"peer{i + 1}.example", "ip": [f"10.1.1.{i + 1}"], "persistent": out,
-                      "reconnect_wait": 1000, "timers": {"idle": 2} if c["state"] == "waiting-dwa" else {}})
+                      "reconnect_wait": 1000, "timers": {"idle": 2} if c["state"] == "waiting-dwa" or c.get("late_handshake") is not None else {}})
     # one more persistent peer whose reconnect deadline falls inside the shutdown window
     peers.append({"name": "peer9.example", "ip": ["10.1.1.9"], "persistent": bool(case.get("reconnect_inside")),
                   "reconnect_wait": case.get("reconnect_wait", 3)})
@@ -169,6 +169,17 @@ def evaluate(case) -> Result:
                 w.run()
                 if len(batched) > 1:
                     res.classes.append("simultaneous-dpas")
+            for i, cs in enumerate(case["conns"]):
+                # a handshake that was under way when stop() was called completes inside the shutdown window;
+                # the peer is silent afterwards (its idle timeout is 2 s)
+                if cs.get("late_handshake") == sec and box["done"] is False and not conns[i].node_closed:
+                    if cs["state"] == "awaiting-cea":
+                        w.answer_cer(conns[i], 2001, auth=(4,), host=f"peer{i + 1}.example")
+                        res.classes.append("handshake-completes-while-stopping")
+                    elif cs["state"] == "awaiting-cer":
+                        conns[i].host = f"peer{i + 1}.example"
+                        w.feed_msg(conns[i], {"k": "CER", "host": conns[i].host, "auth": [4], "hbh": 0x1c0 + i, "e2e": 0x1c0 + i})
+                        res.classes.append("handshake-completes-while-stopping")
             for (off, with_cer) in case.get("newcomers", []):
                 if off == sec and box["done"] is False:
                     nc_ = w.accept("10.1.1.77")
@@ -284,6 +295,10 @@ def shard_main(shard, nshards, tier, scale):
                              "wakeup": 2, "newcomers": [], "seed": seed, "yield_all": ya})
     jobs.append({"conns": [], "force": False, "wait": 3, "wakeup": 2, "newcomers": [[0, True]]})
     jobs.append({"conns": [], "force": True, "wait": 3, "wakeup": 1, "newcomers": []})
+    for stt in ("awaiting-cea", "awaiting-cer"):
+        for k_ in (0, 1, 2):
+            jobs.append({"conns": [{"state": stt, "reaction": "never", "late_handshake": k_}, {"state": "ready", "reaction": "never"}],
+                         "force": False, "wait": 9, "wakeup": 1, "newcomers": []})
     for extra in (1, 2, 3):
         for force in (False, True):
             jobs.append({"conns": [{"state": "ready", "reaction": "prompt"}], "force": force, "wait": 4, "wakeup": 2,
@@ -299,7 +314,8 @@ def shard_main(shard, nshards, tier, scale):
     @st.composite
     def cases(draw):
         conns = draw(st.lists(st.fixed_dictionaries({"state": st.sampled_from(STATES), "reaction": st.sampled_from(REACTIONS),
-                                                     "delay": st.integers(1, 6), "same_host": st.sampled_from([False, False, True])}),
+                                                     "delay": st.integers(1, 6), "same_host": st.sampled_from([False, False, True]),
+                                                     "late_handshake": st.sampled_from([None, None, 0, 1, 3])}),
                               min_size=0, max_size=3))
         return {"conns": conns, "force": draw(st.sampled_from([False, False, True])), "wait": draw(st.integers(2, 9)),
                 "wakeup": draw(st.integers(1, 3)),
@@ -324,7 +340,7 @@ def run(tier, scale=1.0):
     for d in hyp.pool_run(shard_main, (tier, scale)):
         rec.merge(d)
     required = {f"state:{s}": 1 for s in set(STATES)} | {f"reaction:{r}": 1 for r in REACTIONS} | \
-               {"listeners:2": 1, "listeners:4": 1, "simultaneous-dpas": 1, "second-connection-of-a-peer": 1, "force:True": 1, "newcomers:2": 1, "nconns:3": 1, "reconnect-inside:True": 1, "app:threading": 1}
+               {"handshake-completes-while-stopping": 1, "listeners:2": 1, "listeners:4": 1, "simultaneous-dpas": 1, "second-connection-of-a-peer": 1, "force:True": 1, "newcomers:2": 1, "nconns:3": 1, "reconnect-inside:True": 1, "app:threading": 1}
     return finish(rec, tier=tier, level="exploration", rule=RULE, assumptions=ASSUME, t0=t0,
                   required_classes=required)
 
